@@ -155,8 +155,9 @@ class PolyChordOptimizer(Optimizer):
             modes_array = [data[:, 2:num_fit_params+2]]
             modes_weights = [data[:, 0]]
 
-        modes_array = np.asarray(modes_array)
-        modes_weights = np.asarray(modes_weights)
+        # clusters generally hold different numbers of samples, so the
+        # per-cluster traces and weights stay lists (np.asarray of ragged
+        # input raises)
 
         for nmode in range(num_clusters):
 
